@@ -1,5 +1,6 @@
 import WellenModel.Proofs.Slice
 import WellenModel.Proofs.EntryRoundtrip
+import WellenModel.Model.Ghw
 /-!
 # C13 — a variable aliasing a sub-range of a vector reports exactly that sub-range
 
@@ -11,8 +12,10 @@ BitVectorBuilder after the fixes F11, F12, F14). Bit positions of a packed value
 * `C13_minimal_repack`: reducing a slice to a narrower kind keeps its symbols;
 * `C13_entry`: the entry stored for the slice decodes to those symbols (entry round trip of C04),
   in release and debug builds alike (the model has no build-dependent branch left after F11).
-The alias range arithmetic of the GHW loader (`register_bit_vec`, fixed F13) and whole GHW files are
-checked under C11.
+* `C13_alias_exact` / `C13_alias_range` (GHW loader, `find_or_add_alias` / `register_bit_vec` after fix F13): a sub-range
+  of a declared vector gets either a fresh signal reference, or the reference of an alias registered for EXACTLY the same
+  bit offsets `[v.max − min : v.max − max]` of the same vector — never that of a wider, narrower or shifted one.
+Whole GHW files with several sub-ranges per parent are compared three-way (real loader, byte-level model, denotation).
 -/
 namespace Wellen.Slice
 open Wellen.Bits Wellen.Store
@@ -40,3 +43,85 @@ example : sliceNStates .two [1, 0x65] 6 2 = some [0b11001] := by decide
 example : (List.range 5).reverse.map (fun k => symAt .two [1, 0x65] (2 + k)) = [1, 1, 0, 0, 1] := by decide
 
 end Wellen.Slice
+
+namespace Wellen.Ghw
+
+/-- what a lookup in the alias chain can return: either a **fresh** reference (a new alias with exactly the requested range is
+appended, no existing alias is reused), or the reference of an existing alias whose range is **exactly** the requested one -/
+def AliasResult (t : Tracker) (msb lsb : Nat) (fresh : Alias) (t' : Tracker) (r : Nat) : Prop :=
+  (r = t.refCount ∧ t'.refCount = t.refCount + 1 ∧ t'.aliases.size = t.aliases.size + 1 ∧ t'.aliases[t.aliases.size]? = some fresh) ∨
+  (t' = t ∧ ∃ a ∈ t.aliases.toList, a.msb = msb ∧ a.lsb = lsb ∧ a.ref = r)
+
+theorem alias_go (t : Tracker) (msb lsb : Nat) (fresh : Alias) : ∀ (fuel aid : Nat) (t' : Tracker) (r : Nat),
+    findOrAddAlias.go t msb lsb fresh fuel aid = some (t', r) → AliasResult t msb lsb fresh t' r := by
+  intro fuel
+  induction fuel with
+  | zero => intro aid t' r h; simp [findOrAddAlias.go] at h
+  | succ f ih =>
+    intro aid t' r h
+    unfold findOrAddAlias.go at h
+    cases ha : t.aliases[aid - 1]? with
+    | none => simp [ha] at h
+    | some a =>
+      simp only [ha] at h
+      by_cases hm : a.msb = msb ∧ a.lsb = lsb
+      · simp only [hm, and_self, ↓reduceIte, Option.some.injEq, Prod.mk.injEq] at h
+        right
+        refine ⟨h.1.symm, a, ?_, hm.1, hm.2, h.2⟩
+        exact Array.mem_toList_iff.mpr (Array.mem_of_getElem? ha)
+      · simp only [hm, ↓reduceIte] at h
+        cases hn : a.next with
+        | some nx => simp only [hn] at h; exact ih nx t' r h
+        | none =>
+          simp only [hn, Option.some.injEq, Prod.mk.injEq] at h
+          left
+          obtain ⟨h1, h2⟩ := h
+          subst h1
+          refine ⟨h2.symm, rfl, by simp, ?_⟩
+          have hlt : aid - 1 < t.aliases.size := by
+            have := Array.getElem?_eq_some_iff.mp ha
+            exact this.1
+          simp only [Array.set!_eq_setIfInBounds]
+          rw [Array.getElem?_setIfInBounds_ne (by omega)]
+          simp
+
+
+/-- `find_or_add_alias`: fresh reference, or an alias of exactly the requested range -/
+theorem C13_alias_exact (t t' : Tracker) (vecId msb lsb r : Nat) (h : findOrAddAlias t vecId msb lsb = some (t', r)) :
+    ∃ v, t.vectors[vecId]? = some v ∧
+      AliasResult t msb lsb { msb := msb, lsb := lsb, ref := t.refCount, sliced := v.ref } t' r := by
+  unfold findOrAddAlias at h
+  cases hv : t.vectors[vecId]? with
+  | none => simp [hv] at h
+  | some v =>
+    simp only [hv] at h
+    refine ⟨v, rfl, ?_⟩
+    cases ha : v.aliasId with
+    | none =>
+      simp only [ha, Option.some.injEq, Prod.mk.injEq] at h
+      left
+      obtain ⟨h1, h2⟩ := h
+      subst h1
+      exact ⟨h2.symm, rfl, by simp, by simp⟩
+    | some a0 =>
+      simp only [ha] at h
+      exact alias_go t msb lsb _ _ a0 t' r h
+
+/-- `register_bit_vec` on a proper sub-range `[min, max]` of the registered vector `v` (signal ids `v.min … v.max`): the alias
+carries exactly the bit offsets of that sub-range, counted from the vector's last signal id -/
+theorem C13_alias_range (t t' : Tracker) (min max vid r : Nat) (two : Bool) (v : VecInfo)
+    (hf : findVec t min (max + 1 - min) = some (some vid)) (hv : t.vectors[vid]? = some v)
+    (hsub : ¬ (max = v.max ∧ min = v.min)) (h : registerBitVec t min max two = some (t', r)) :
+    v.min ≤ min ∧ max ≤ v.max ∧
+      AliasResult t (v.max - min) (v.max - max) { msb := v.max - min, lsb := v.max - max, ref := t.refCount, sliced := v.ref } t' r := by
+  unfold registerBitVec at h
+  simp only [hf, hv, hsub, ↓reduceIte] at h
+  split at h
+  · rename_i hin
+    obtain ⟨v', hv', hres⟩ := C13_alias_exact t t' vid _ _ r h
+    rw [hv] at hv'
+    cases hv'
+    exact ⟨hin.1, hin.2, hres⟩
+  · cases h
+
+end Wellen.Ghw
